@@ -1,7 +1,7 @@
 (* CaseFrame.v -- the `unpack` correspondence: exhaustive small arrays (tallied inside Coq, no
    case text to parse) and individual frames. *)
 From Coq Require Import List ZArith NArith Bool String.
-From OV.Model Require Import Json Schema Frame CaseLib.
+From OV.Model Require Import Json JsonText Schema Frame CaseLib.
 Import ListNotations.
 Local Open Scope string_scope.
 
@@ -64,8 +64,9 @@ Definition fagree (c : fcase) : bool :=
 Definition fdisagreements (cs : list fcase) : list N := bad fagree cs 0%N.
 
 (* pack: the array the implementation wrote must be pack_v of the message *)
-Record pcase := mkP { pc_msg : msg; pc_written : json }.
+Record pcase := mkP { pc_msg : msg; pc_written : json; pc_text : string }.
 Definition pagree (c : pcase) : bool :=
   json_sameb false (pack_v (pc_msg c)) (pc_written c) &&
+  String.eqb (print_compact (pack_v (pc_msg c))) (pc_text c) &&
   match unpack_v (pack_v (pc_msg c)) with UMsg m' => msg_eqb (pc_msg c) m' | _ => false end.
 Definition pdisagreements (cs : list pcase) : list N := bad pagree cs 0%N.
